@@ -8,7 +8,8 @@
                                                                  coefficients of its dealing polynomials (dealers only)
      {"ev":"D","k":kind,"i":i,"j":j,"v":v,"found":b, OBS}       the network delivers the kind-k packet number v from i to j
                                                                  (1 deal bundle, 2 response bundle, 4 validator public-key
-                                                                 share / none key; first delivery or re-delivery)
+                                                                 share / none key; first delivery or re-delivery);
+                                                                 found = the packet exists (else {"ev":"Abort"} ends the trace)
      OBS = "sent":[[kind,from,to,number]..]   the packets that appeared since the previous event
            "done":[nodes], "failed":[nodes], "errs":[class per failed node]   the nodes whose RunReshareDKG returned
      {"ev":"End","open":[nodes that have not returned]}          the schedule is over and the ceremony is not complete
@@ -43,12 +44,18 @@ TReset == /\ IsEvent("Reset") /\ l = 1 /\ UNCHANGED <<vars, base, ret>>
           /\ Rel("Reset.newidx", Pairs(R0.newidx) = {<<i, ContractX(i)>> : i \in Nw})
 TStart == /\ IsEvent("Start") /\ Quiet /\ Ev.i \in P /\ Len(Ev.c) = par.V
           /\ Start(Ev.i, [v \in Vals |-> Ev.c[v + 1]]) /\ Snap
+Exists(k, i, v) == CASE k = 1 -> HasDealt(i, v) [] k = 2 -> HasResponded(i, v) [] OTHER -> HasShared(i, v)
 TD == /\ IsEvent("D") /\ Quiet /\ Ev.i \in P /\ Ev.j \in P /\ Ev.v \in Vals /\ Ev.k \in {1, 2, 4}
-      /\ Rel("D.found", Ev.found)
-      /\ CASE Ev.k = 1 -> DeliverDeal(Ev.i, Ev.j, Ev.v)
-           [] Ev.k = 2 -> DeliverResp(Ev.i, Ev.j, Ev.v)
-           [] OTHER -> DeliverShare(Ev.i, Ev.j, Ev.v)
+      /\ Rel("D.found", Ev.found = Exists(Ev.k, Ev.i, Ev.v))
+      /\ IF ~Ev.found THEN UNCHANGED vars
+         ELSE CASE Ev.k = 1 -> DeliverDeal(Ev.i, Ev.j, Ev.v)
+                [] Ev.k = 2 -> DeliverResp(Ev.i, Ev.j, Ev.v)
+                [] OTHER -> DeliverShare(Ev.i, Ev.j, Ev.v)
       /\ Snap
+\* the schedule names a packet that does not exist (and the model agrees): the executor stops.  Only a schedule written for the
+\* required behaviour and validated against a deviation gets here (a probe of a finding after the point where they part)
+TAbort == /\ IsEvent("Abort") /\ l = TLen /\ l > 2 /\ Trace[l - 1].ev = "D" /\ ~Trace[l - 1].found
+          /\ UNCHANGED <<vars, base, ret>>
 TEnd == /\ IsEvent("End") /\ l = TLen /\ Quiet /\ ~AllDone /\ UNCHANGED <<vars, base, ret>>
         /\ Rel("End.open", SeqToSet(Ev.open) = P \ Returned)
 Rows(s) == {s[x].j : x \in DOMAIN s}
@@ -93,7 +100,7 @@ TCheck == /\ IsEvent("Check") /\ l = TLen /\ Quiet /\ AllDone /\ UNCHANGED <<var
                IN /\ e.v \in Vals /\ So \subseteq 1..par.N0 /\ Sn \subseteq Nw /\ So # {} /\ Sn # {}
                   /\ Card(So) < par.T /\ Card(Sn) < NewT /\ MixedDistinct(So, Sn)
                   /\ Rel("Check.mixed", MixedOK(e.v, So, Sn, H) \/ ~e.sig)
-TraceNext == TReset \/ TAuto \/ TStart \/ TD \/ TEnd \/ TCheck
+TraceNext == TReset \/ TAuto \/ TStart \/ TD \/ TAbort \/ TEnd \/ TCheck
 TraceSpec == TraceInit /\ [][TraceNext]_tvars
 \* the observations of the last consumed event, demanded when the model has run to quiescence
 Prev == Trace[l - 1]
